@@ -7,6 +7,7 @@ toolchain go1.23.5
 require (
 	bazil.org/fuse v0.0.0-20230120002735-62a210ff1fd5
 	github.com/anishathalye/porcupine v1.3.0
+	github.com/mattn/go-sqlite3 v1.14.16-0.20220918133448-90900be5db1a
 	github.com/superfly/litefs v0.0.0
 	github.com/superfly/ltx v0.3.14
 	golang.org/x/net v0.17.0
